@@ -70,8 +70,25 @@ type c02frame struct {
 // (no stores to shared state, no calls except math predicates and other such helpers), so that one
 // of its paths can be spliced into the caller's path.
 func c02inlinable(p *core.Prog, g *ssa.Function, depth int) bool {
-	if g == nil || !p.InRepo(g) || len(g.Blocks) == 0 || len(g.FreeVars) > 0 || depth > 3 {
+	if g == nil || !p.InRepo(g) || len(g.Blocks) == 0 || depth > 3 {
 		return false
+	}
+	for _, fv := range g.FreeVars {
+		// captured variables may only be read
+		if fv.Referrers() == nil {
+			continue
+		}
+		for _, r := range *fv.Referrers() {
+			switch x := r.(type) {
+			case *ssa.UnOp:
+				if x.Op != token.MUL {
+					return false
+				}
+			case *ssa.DebugRef:
+			default:
+				return false
+			}
+		}
 	}
 	if g.Signature.Recv() != nil {
 		return false
@@ -83,7 +100,7 @@ func c02inlinable(p *core.Prog, g *ssa.Function, depth int) bool {
 		case *ssa.UnOp:
 			if x.Op == token.MUL {
 				switch x.X.(type) {
-				case *ssa.Global, *ssa.Alloc:
+				case *ssa.Global, *ssa.Alloc, *ssa.FreeVar:
 				default:
 					ok = false
 				}
@@ -124,6 +141,12 @@ func c02expand(p *core.Prog, blocks []*ssa.BasicBlock, depth int) [][]*c02frame 
 				continue
 			}
 			g := core.Callee(&call.Call)
+			if g == nil && !call.Call.IsInvoke() {
+				// a local closure called through the variable that holds it
+				if mc, isMC := core.Resolve(call.Call.Value).(*ssa.MakeClosure); isMC {
+					g = mc.Fn.(*ssa.Function)
+				}
+			}
 			if !c02inlinable(p, g, depth) {
 				continue
 			}
@@ -214,6 +237,27 @@ func (e *c02eval) deref(v ssa.Value) ssa.Value {
 			}
 		case *ssa.UnOp:
 			if x.Op == token.MUL {
+				if fv, isFV := x.X.(*ssa.FreeVar); isFV {
+					// variable captured by an inlined local closure: the value its cell holds in the enclosing function
+					var bound ssa.Value
+					if fr := e.byFn[fv.Parent()]; fr != nil {
+						if mc, isMC := core.Resolve(fr.call.Call.Value).(*ssa.MakeClosure); isMC {
+							for k, f2 := range fv.Parent().FreeVars {
+								if f2 == fv && k < len(mc.Bindings) {
+									if a, isA := mc.Bindings[k].(*ssa.Alloc); isA {
+										if st := core.Stores(a); len(st) == 1 {
+											bound = st[0].Val
+										}
+									}
+								}
+							}
+						}
+					}
+					if bound != nil {
+						v = bound
+						continue
+					}
+				}
 				if a, isA := x.X.(*ssa.Alloc); isA && e.byFn[a.Parent()] != nil {
 					if s := core.LoadSource(x); s != nil {
 						v = s
@@ -772,6 +816,9 @@ func runC02(c *core.Ctx) {
 				}
 			}
 			rv := core.RetVals(ret)
+			for i := range rv {
+				rv[i] = c02onPath(path, rv[i])
+			}
 			if absent {
 				continue // C01/R3 decides the absent branch
 			}
@@ -1056,4 +1103,28 @@ func (g *c02group) addDelegate(k string) {
 		}
 	}
 	g.delegates = append(g.delegates, k)
+}
+
+// c02onPath resolves a phi (single-exit functions merge their results) to the value that arrives along path.
+func c02onPath(path []*ssa.BasicBlock, v ssa.Value) ssa.Value {
+	for d := 0; d < 8; d++ {
+		phi, ok := v.(*ssa.Phi)
+		if !ok {
+			return v
+		}
+		found := false
+		for i, b := range path {
+			if b == phi.Block() && i > 0 {
+				for k, pb := range phi.Block().Preds {
+					if pb == path[i-1] {
+						v, found = phi.Edges[k], true
+					}
+				}
+			}
+		}
+		if !found {
+			return v
+		}
+	}
+	return v
 }
